@@ -204,6 +204,11 @@ def discharge(fx, site):
             lv, hv = const_val(fx, lo), const_val(fx, hi)
             if lv is not None and hv is not None and lv <= hv:
                 return "constant bounds %s <= %s" % (lv, hv)
+            import overflow
+            iv = overflow.Intervals(fx, b, prov)
+            li, hi_ = iv.term(lo), iv.term(hi)
+            if li is not None and hi_ is not None and li[1] <= hi_[0]:
+                return "bounds ordered by interval arithmetic: lo <= %s <= %s <= hi" % (li[1], hi_[0])
             # lo = min(_, d), hi = max(_, d) over a common d  =>  lo <= d <= hi
             if lo[0] == "call" and hi[0] == "call" and (lo[4] or "").endswith("Ord::min") and (hi[4] or "").endswith("Ord::max"):
                 la = [sym.norm(sym.strip(x)) for x in lo[2]]
